@@ -35,6 +35,9 @@ type Monitor struct {
 	dead map[int]bool
 	// whether any pass since the last fully successful one failed
 	failedSince bool
+	Rejected    bool        // some operation so far returned a cycle / height-limit rejection
+	Cyclic      bool        // an accepted AddInput made the program cyclic
+	CyclicAt    int
 	deferred    map[int]int // C12: var -> value the mid-pass writes of this pass must leave behind
 	passStart   map[int]int // C12: var values when the pass started
 }
@@ -48,6 +51,14 @@ func NewMonitor(e *Exec) *Monitor {
 }
 
 func (m *Monitor) add(prop, kind, what string) {
+	if m.Cyclic {
+		// the program itself has become cyclic (AddInput closed a cycle on a node that was not in
+		// the graph, which the library does not check): outside "any DAG of combinators"
+		kind += "@cyclic-program"
+	} else if m.Rejected {
+		// an earlier operation of this history was rejected for a cycle or the height limit
+		kind += "@after-rejection"
+	}
 	m.Findings = append(m.Findings, Finding{Prop: prop, Kind: kind, What: what, Op: len(m.E.Ops)})
 }
 
@@ -258,6 +269,13 @@ func (m *Monitor) reachable() map[int]bool {
 func (m *Monitor) AfterOp(op Op, s Sample) {
 	e := m.E
 	isPass := op.K == "Stabilize" || op.K == "StabilizeCancelled" || op.K == "ParStabilize"
+	if s.Class == "XLimit" || s.Class == "XCycle" {
+		m.Rejected = true
+	}
+	if op.K == "AddInput" && s.Class == "XOk" && !m.Cyclic && m.dependsOn(op.B, op.A, map[int]bool{}) {
+		m.Cyclic = true
+		m.CyclicAt = len(e.Ops)
+	}
 	if s.Crashed {
 		prop := "C05"
 		kind := "panic:" + op.K
@@ -611,7 +629,7 @@ func (e *Exec) Valid(op Op) bool {
 	case "SetVar", "UpdateVar":
 		return kind(op.A, "Var")
 	case "AddInput", "RemoveInput":
-		return kind(op.A, "MapN") && user(op.B) && (op.K == "RemoveInput" || op.B < op.A)
+		return kind(op.A, "MapN") && user(op.B) && op.A != op.B
 	case "Stabilize", "ParStabilize":
 		for _, a := range op.Plan {
 			if (a.Kind == "ASet" || a.Kind == "AUpdate") && !kind(a.Var, "Var") {
@@ -679,4 +697,54 @@ func SortFindings(fs []Finding) {
 		}
 		return fs[i].Kind < fs[j].Kind
 	})
+}
+
+// dependsOn reports whether node a can read node b through declared inputs, bind inputs,
+// current right-hand sides or any outer node a bind template mentions.
+func (m *Monitor) dependsOn(a, b int, seen map[int]bool) bool {
+	if a == b {
+		return true
+	}
+	if seen[a] {
+		return false
+	}
+	seen[a] = true
+	ref := m.E.Nodes[a]
+	if ref == nil {
+		return false
+	}
+	for _, d := range ref.Decl {
+		if m.dependsOn(d, b, seen) {
+			return true
+		}
+	}
+	if ref.Bind != nil {
+		if m.dependsOn(ref.Bind.Lhs, b, seen) {
+			return true
+		}
+		var outer func(t *Texp) bool
+		outer = func(t *Texp) bool {
+			if t == nil {
+				return false
+			}
+			if t.K == "TOuter" && m.dependsOn(t.N, b, seen) {
+				return true
+			}
+			if outer(t.E1) || outer(t.E2) {
+				return true
+			}
+			for _, c := range t.Cases {
+				if outer(c) {
+					return true
+				}
+			}
+			return false
+		}
+		for _, c := range ref.Bind.Cases {
+			if outer(c) {
+				return true
+			}
+		}
+	}
+	return false
 }
